@@ -3,6 +3,7 @@ package controler
 
 // Start initializes the pipeline.
 func Start() {
+	notifySignals()
 	startPipeline()
 }
 
